@@ -148,7 +148,7 @@ fn run_huge_probe(seed: u64, rep: &mut Report) {
 // it has put on the transport must stay a sequence of whole frames carrying exactly what was submitted
 
 /// returns (problem, payload frames checked)
-async fn stalled_transport_case(interval_ms: u64, timeout_ms: u64, stall_at_packet: usize, stall_ms: u64, pad_size: u64, writer_idle: bool, seed: u64) -> (Option<(String, String)>, u64) {
+async fn stalled_transport_case(interval_ms: u64, timeout_ms: u64, stall_at_packet: usize, stall_ms: u64, pad_size: u64, writer_idle: bool, lead: u64, seed: u64) -> (Option<(String, String)>, u64) {
     use crate::engine::{self, PairCfg};
     use crate::mempipe::{PipeCfg, ReadFault};
     use crate::prng::Pattern;
@@ -195,7 +195,9 @@ async fn stalled_transport_case(interval_ms: u64, timeout_ms: u64, stall_at_pack
     let mut write_failed = false;
     for k in 0..8usize {
         if k == stall_at_packet {
-            c2s.read_fault_now(ReadFault::BlackHole);
+            // the stall begins `lead` bytes further on: the head of the next packet (a keep-alive request frame, say)
+            // still gets through and may be answered while the rest of that packet is stuck
+            c2s.set_read_fault(c2s.delivered() + lead, ReadFault::BlackHole);
             if writer_idle {
                 // nobody but the session's own tasks writes during the stall (a keep-alive request starts its packet,
                 // fills what room the transport has, and waits in the middle of it)
@@ -252,34 +254,41 @@ async fn stalled_transport_case(interval_ms: u64, timeout_ms: u64, stall_at_pack
 }
 
 fn run_stalled(rep: &mut Report, rng: &mut Rng, n: usize) {
+    run_stalled_as(rep, rng, n, "padding")
+}
+
+/// the same workload judged for another property (C11: every frame reaches the transport contiguously, whoever else
+/// is writing — here the session's own keep-alive task — and whatever the transport does meanwhile)
+pub fn run_stalled_as(rep: &mut Report, rng: &mut Rng, n: usize, class: &str) {
     for i in 0..n {
         let interval_ms = *rng.pick(&[500u64, 1000, 2000]);
         let timeout_ms = interval_ms * *rng.pick(&[1u64, 3, 6]);
         // mostly stalls that last longer than one keep-alive interval and end before the keep-alive timeout
         let stall_ms = match rng.below(6) {
             0 => interval_ms / 2,
-            1 => rng.range(timeout_ms, timeout_ms + interval_ms),
+            1 | 2 => rng.range(timeout_ms, timeout_ms + 2 * interval_ms),
             _ if timeout_ms > interval_ms + 200 => rng.range(interval_ms + 50, timeout_ms - 50),
             _ => interval_ms + interval_ms / 2,
         };
+        let lead = *rng.pick(&[0u64, 0, 8, 64, 200]);
         let pad_size = *rng.pick(&[300u64, 1000, 3000]);
         let at = rng.usize(0, 6);
         let writer_idle = rng.chance(0.7);
         let seed = rng.next();
         run::case_begin(&format!("C04 stalled transport {i}"));
-        let r = run::vt_block_on_deadline(std::time::Duration::from_secs(1_000_000), async move { stalled_transport_case(interval_ms, timeout_ms, at, stall_ms, pad_size, writer_idle, seed).await });
-        let case = json!({"kind": "c04-stalled", "interval_ms": interval_ms, "timeout_ms": timeout_ms, "stall_ms": stall_ms, "pad_size": pad_size, "stall_at_packet": at, "data_writer_idle_during_stall": writer_idle, "seed": seed.to_string()});
+        let r = run::vt_block_on_deadline(std::time::Duration::from_secs(1_000_000), async move { stalled_transport_case(interval_ms, timeout_ms, at, stall_ms, pad_size, writer_idle, lead, seed).await });
+        let case = json!({"kind": "c04-stalled", "interval_ms": interval_ms, "timeout_ms": timeout_ms, "stall_ms": stall_ms, "pad_size": pad_size, "stall_at_packet": at, "data_writer_idle_during_stall": writer_idle, "stall_begins_bytes_ahead": lead, "seed": seed.to_string()});
         rep.case(Some(hash_str(&case.to_string())));
         rep.add("stalled_transport_cases", 1);
         match r {
-            None => rep.violate("padding", "stalled_transport+keep_alive", "case_stuck", "the case did not finish".to_string(), case.clone()),
+            None => rep.violate(class, "stalled_transport+keep_alive", "case_stuck", "the case did not finish".to_string(), case.clone()),
             Some((Some((sym, det)), _)) if sym == "setup" => rep.inconclusive(det),
-            Some((Some((sym, det)), _)) => rep.violate("padding", "stalled_transport+keep_alive", &sym, det, case.clone()),
+            Some((Some((sym, det)), _)) => rep.violate(class, "stalled_transport+keep_alive", &sym, det, case.clone()),
             Some((None, frames)) => rep.add("stalled_transport_payload_frames_checked", frames),
         }
         for p in run::take_thread_panics() {
             if !run::is_harness_panic(&p) {
-                rep.violate("padding", "stalled_transport+keep_alive", "panic", p, case.clone());
+                rep.violate(class, "stalled_transport+keep_alive", "panic", p, case.clone());
             }
         }
     }
